@@ -1,6 +1,9 @@
 use crate::runner::{Ctx, Property};
 
 pub mod c01;
+pub mod c13;
+pub mod c12;
+pub mod c08;
 pub mod c18;
 pub mod c06;
 pub mod c05;
@@ -16,6 +19,9 @@ pub mod c20;
 pub fn all(ctx: &Ctx) -> Vec<Property> {
     vec![
         c01::property(ctx),
+        c13::property(ctx),
+        c12::property(ctx),
+        c08::property(ctx),
         c18::property(ctx),
         c06::property(ctx),
         c05::property(ctx),
